@@ -95,6 +95,60 @@ theorem final_set (classes : List ClassDef) (nc : Bool) (cfg : Cfg) (ops : List 
   obtain ⟨hg, _⟩ := run_good h
   exact ⟨hg.conf.good.parsed.descOf, fun hpl => run_plain_strs hpl h⟩
 
+/-- **Closed form of the inheritance.** `Resolves` gives `id` attributes exactly when its reference chain
+ends in a description without reference, and then: the colour is the first colour slot along the chain
+(own description first) that is not `""` — a colour, or the terminal default for `"-"`; the same for the
+background; the modifiers are those of the whole chain, nearer descriptions laid over farther ones. -/
+theorem closed_form (dm : Id → Option Desc) (id : Id) (r : Resolved) :
+    Resolves dm id r ↔
+      ∃ ds, Chain dm id ds ∧ r.fg = firstSpec (ds.map (·.fg)) ∧ r.bg = firstSpec (ds.map (·.bg)) ∧
+        r.mods = chainMods ds := by
+  constructor
+  · intro h
+    induction h with
+    | root hd hp =>
+      rename_i id d
+      refine ⟨[d], .root hd hp, ?_, ?_, rfl⟩
+      · cases hfg : d.fg <;> simp [effOf, pickColor, firstSpec, hfg]
+      · cases hbg : d.bg <;> simp [effOf, pickColor, firstSpec, hbg]
+    | step hd hp _ ih =>
+      rename_i id p d pr
+      obtain ⟨ds, hc, hfg, hbg, hm⟩ := ih
+      refine ⟨d :: ds, .step hd hp hc, ?_, ?_, ?_⟩
+      · cases hf : d.fg <;> simp [effOf, pickColor, firstSpec, hf, hfg]
+      · cases hb : d.bg <;> simp [effOf, pickColor, firstSpec, hb, hbg]
+      · cases ds with
+        | nil => cases hc
+        | cons d' ds' => simp [effOf, chainMods, hm]
+  · rintro ⟨ds, hc, hfg, hbg, hm⟩
+    induction hc generalizing r with
+    | root hd hp =>
+      rename_i id d
+      have : r = effOf none d := by
+        obtain ⟨fg, bg, mods⟩ := r
+        simp only [effOf] at *
+        simp only [chainMods] at hm
+        subst hm
+        congr 1
+        · cases hf : d.fg <;> simp [pickColor, firstSpec, hf] at hfg ⊢ <;> exact hfg
+        · cases hb : d.bg <;> simp [pickColor, firstSpec, hb] at hbg ⊢ <;> exact hbg
+      rw [this]; exact .root hd hp
+    | step hd hp hc' ih =>
+      rename_i id p d ds
+      have hpr := ih ⟨firstSpec (ds.map (·.fg)), firstSpec (ds.map (·.bg)), chainMods ds⟩ rfl rfl rfl
+      have : r = effOf (some ⟨firstSpec (ds.map (·.fg)), firstSpec (ds.map (·.bg)), chainMods ds⟩) d := by
+        obtain ⟨fg, bg, mods⟩ := r
+        simp only [effOf] at *
+        cases ds with
+        | nil => cases hc'
+        | cons d' ds' =>
+          simp only [chainMods] at hm
+          subst hm
+          congr 1
+          · cases hf : d.fg <;> simp [pickColor, firstSpec, hf] at hfg ⊢ <;> exact hfg
+          · cases hb : d.bg <;> simp [pickColor, firstSpec, hb] at hbg ⊢ <;> exact hbg
+      rw [this]; exact .step hd hp hpr
+
 /-- two states with the same final set of descriptions give every id the same formatter -/
 theorem same_set_same_colors (classes : List ClassDef) (nc : Bool) (cfg1 cfg2 : Cfg) (ops1 ops2 : List Op)
     (w1 w2 : World) (h1 : run classes nc cfg1 ops1 = .ok w1) (h2 : run classes nc cfg2 ops2 = .ok w2)
